@@ -229,6 +229,10 @@ impl<V> Broadcasts<V> {
             .iter()
             .map(|entry| (entry.remaining_tx, &entry.data[..]))
     }
+
+    pub(crate) fn verif_flop_len(&self) -> usize {
+        self.flop.len()
+    }
 }
 
 #[derive(Debug, Clone)]
